@@ -319,8 +319,8 @@ fn exec(case: &Case) -> Result<Exec, Violation> {
 
 pub fn n_units(tier: Tier) -> u64 {
     match tier {
-        Tier::Quick => 1024,
-        Tier::Thorough => 65536,
+        Tier::Quick => 8192,
+        Tier::Thorough => 262144,
     }
 }
 const PER_UNIT: u64 = 256;
